@@ -6,12 +6,12 @@ Import ListNotations.
 Definition id := nat.
 Definition str := list N.
 
-Inductive ntype := TElem | TText | TCData | TERef | TPI | TComment | TDoc | TFrag.
+Inductive ntype := TElem | TText | TCData | TERef | TPI | TComment | TDoc | TFrag | TAttr.
 
 Definition ntype_eqb (a b : ntype) : bool :=
   match a, b with
   | TElem, TElem | TText, TText | TCData, TCData | TERef, TERef | TPI, TPI | TComment, TComment
-  | TDoc, TDoc | TFrag, TFrag => true
+  | TDoc, TDoc | TFrag, TFrag | TAttr, TAttr => true
   | _, _ => false
   end.
 
@@ -23,7 +23,7 @@ Definition is_chardata (t : ntype) : bool :=
   match t with TText | TCData | TComment => true | _ => false end.
 
 (** DOMException codes that the modelled operations raise; E_INTERNAL marks exhausted fuel (never reached) *)
-Inductive exc := INDEX_SIZE | HIERARCHY | WRONG_DOC | INVALID_CHAR | NO_MOD | NOT_FOUND | E_INTERNAL.
+Inductive exc := INDEX_SIZE | HIERARCHY | WRONG_DOC | INVALID_CHAR | NO_MOD | NOT_FOUND | NOT_SUPPORTED | NAMESPACE | E_INTERNAL.
 Inductive result := ROk | RNode (i : id) | RStr (s : str) | RErr (e : exc) | RSkip.
 Definition is_err (r : result) : bool := match r with RErr _ => true | _ => false end.
 
@@ -37,6 +37,22 @@ Definition name_char (c : N) : bool :=
   name_start c || (N.leb 48 c && N.leb c 57) || N.eqb c 45 || N.eqb c 46.
 Definition valid_name (s : str) : bool :=
   match s with [] => false | c :: r => name_start c && forallb name_char r end.
+
+(** qualified names (Namespaces in XML): position of the single colon; [None] = malformed
+    (empty, leading or trailing colon, more than one colon), [Some 0] = no colon *)
+Fixpoint colons (s : str) (i : nat) : list nat :=
+  match s with [] => [] | c :: r => if N.eqb c 58 then i :: colons r (S i) else colons r (S i) end.
+Definition qname_index (s : str) : option nat :=
+  match colons s 0 with
+  | [] => match s with [] => None | _ => Some 0 end
+  | [c] => if Nat.eqb c 0 || Nat.eqb c (length s - 1) then None else Some c
+  | _ => None
+  end.
+Definition s_xml : str := [120; 109; 108]%N.
+Definition s_xmlns : str := [120; 109; 108; 110; 115]%N.
+(* "http://www.w3.org/XML/1998/namespace" and "http://www.w3.org/2000/xmlns/" *)
+Definition xml_uri : str := [104;116;116;112;58;47;47;119;119;119;46;119;51;46;111;114;103;47;88;77;76;47;49;57;57;56;47;110;97;109;101;115;112;97;99;101]%N.
+Definition xmlns_uri : str := [104;116;116;112;58;47;47;119;119;119;46;119;51;46;111;114;103;47;50;48;48;48;47;120;109;108;110;115;47]%N.
 
 (** attribute maps: association lists kept sorted by name (canonical form of a finite map) *)
 Fixpoint str_cmp (a b : str) : comparison :=
@@ -70,12 +86,29 @@ Inductive op :=
 | ONormalize (n : id)
 | OSetData (n : id) (s : str)
 | OAppendData (n : id) (s : str)
-| OInsertData (n : id) (off : nat) (s : str)
-| ODeleteData (n : id) (off cnt : nat)
-| OReplaceData (n : id) (off cnt : nat) (s : str)
-| OSubstring (n : id) (off cnt : nat)
-| OSplitText (n : id) (off : nat)
+| OInsertData (n : id) (off : N) (s : str)
+| ODeleteData (n : id) (off cnt : N)
+| OReplaceData (n : id) (off cnt : N) (s : str)
+| OSubstring (n : id) (off cnt : N)
+| OSplitText (n : id) (off : N)
 | OSetAttr (e : id) (nm v : str)
 | ORemoveAttr (e : id) (nm : str)
-| OGetAttr (e : id) (nm : str).
+| OGetAttr (e : id) (nm : str)
+| ORename (doc n : id) (ns nm : str)      (* Document.renameNode(n, namespaceURI, qualifiedName); ns = [] is null *).
 
+
+(** binding a qualified name to a namespace URI ([] = none) for an element / attribute, per Namespaces in XML and
+    DOM L2/L3 createElementNS/createAttributeNS: [None] = NAMESPACE_ERR, otherwise the resulting namespace URI *)
+Definition ns_bind (is_attr : bool) (ns qname : str) : option str :=
+  match qname_index qname with
+  | None => None
+  | Some O =>
+    if is_attr && str_eqb qname s_xmlns then (if str_eqb ns xmlns_uri then Some xmlns_uri else None) else Some ns
+  | Some i =>
+    let p := firstn i qname in
+    let l := skipn (S i) qname in
+    if negb (valid_name p && valid_name l) then None
+    else if str_eqb p s_xml then (if str_eqb ns xml_uri then Some xml_uri else None)
+    else if is_attr && str_eqb p s_xmlns then (if str_eqb ns xmlns_uri then Some xmlns_uri else None)
+    else match ns with [] => None | _ => Some ns end
+  end.
